@@ -24,6 +24,19 @@ OpNth(rest, n)     == IF n >= Len(rest) THEN <<INone, <<>>>>
 OpNthBack(rest, n) == IF n >= Len(rest) THEN <<INone, <<>>>>
                       ELSE <<IItem(rest[Len(rest) - n]), SubSeq(rest, 1, Len(rest) - n - 1)>>
 
+\* --- provided methods that leave the iterator alive (built by core on next / try_fold / by_ref) ---
+\* find / rfind with a predicate that holds for the (n+1)-th item it is shown: the items before it are
+\* consumed, the match is returned, the rest stays -- the same function as nth / nth_back
+OpFind(rest, n)  == OpNth(rest, n)
+OpRFind(rest, n) == OpNthBack(rest, n)
+\* by_ref().take(n).count() / by_ref().rev().take(n).count() / by_ref().take(n).last():
+\* min(n, len) items are consumed from that end; the result is their number / the last of them
+MinNat(a, b) == IF a < b THEN a ELSE b
+OpTakeCount(rest, n)    == LET m == MinNat(n, Len(rest)) IN <<m, SubSeq(rest, m + 1, Len(rest))>>
+OpRevTakeCount(rest, n) == LET m == MinNat(n, Len(rest)) IN <<m, SubSeq(rest, 1, Len(rest) - m)>>
+OpTakeLast(rest, n)     == LET m == MinNat(n, Len(rest)) IN
+                           <<IF m = 0 THEN INone ELSE IItem(rest[m]), SubSeq(rest, m + 1, Len(rest))>>
+
 \* --- observers (state unchanged) ---
 ObsLen(rest)      == Len(rest)
 ObsSizeHint(rest) == <<Len(rest), Len(rest)>>          \* (lower, Some(upper))
@@ -55,4 +68,8 @@ WNth(base, w, n)   == IF n >= WLen(w) THEN <<INone, WEmpty>>
                       ELSE <<IItem(base[w.lo + n]), WNorm(w.lo + n + 1, w.hi)>>
 WNthBack(base, w, n) == IF n >= WLen(w) THEN <<INone, WEmpty>>
                         ELSE <<IItem(base[w.hi - n]), WNorm(w.lo, w.hi - n - 1)>>
+WTakeCount(w, n)    == LET m == MinNat(n, WLen(w)) IN <<m, WNorm(w.lo + m, w.hi)>>
+WRevTakeCount(w, n) == LET m == MinNat(n, WLen(w)) IN <<m, WNorm(w.lo, w.hi - m)>>
+WTakeLast(base, w, n) == LET m == MinNat(n, WLen(w)) IN
+                         <<IF m = 0 THEN INone ELSE IItem(base[w.lo + m - 1]), WNorm(w.lo + m, w.hi)>>
 =============================================================================
